@@ -414,6 +414,10 @@ def run_check(prop, tier, seed):
         got = sum(v for k, v in merged["counters"].items() if fnmatch.fnmatchcase(k, key))
         if got < minimum:
             inconclusive.append("mandatory counter %s: %d < %d" % (key, got, minimum))
+    for key, minimum in cfg.get("min_distinct", {}).items():
+        got = len([k for k, v in merged["counters"].items() if fnmatch.fnmatchcase(k, key) and v > 0])
+        if got < minimum:
+            inconclusive.append("distinct counters matching %s: %d < %d" % (key, got, minimum))
     if merged["selfcheck"]:
         inconclusive.append("harness self-check failed (%d): %s" % (len(merged["selfcheck"]), merged["selfcheck"][0][:600]))
     if merged["evals"] == 0:
